@@ -25,20 +25,22 @@ def TailOk (tail : List Step) (nPre : Nat) : Prop :=
       (cleanup (outSt (prefixRun k tail s))).dest = some s.acc)
 
 theorem putTail_ok (c : Cfg) :
-    TailOk ([.flush, .check c.checksumsEqual, .mkdirs, .rename c.renameFails] ++
+    TailOk ([.flush, .check c.checksumsEqual, .mkdirs c.mkdirsFails, .rename c.renameFails] ++
       (if c.hasMeta then [.saveMeta c.metaFails] else []) ++ [.saveInfo c.infoFails]) 3 := by
   intro s k ho ht
   rcases k with _ | _ | _ | _ | _ | _ | _ | k <;>
-    cases c.checksumsEqual <;> cases c.renameFails <;> cases c.hasMeta <;> cases c.metaFails <;>
-    cases c.infoFails <;> simp [prefixRun, exec, cleanup, outSt, ho]
+    cases c.checksumsEqual <;> cases c.mkdirsFails <;> cases c.renameFails <;> cases c.hasMeta <;>
+    cases c.metaFails <;> cases c.infoFails <;> simp [prefixRun, exec, cleanup, outSt, ho]
 
-theorem uploadPartTail_ok (c : Cfg) : TailOk [.flush, .mkdirs, .rename c.renameFails] 2 := by
+theorem uploadPartTail_ok (c : Cfg) : TailOk [.flush, .mkdirs c.mkdirsFails, .rename c.renameFails] 2 := by
   intro s k ho ht
-  rcases k with _ | _ | _ | _ | k <;> cases c.renameFails <;> simp [prefixRun, exec, cleanup, outSt, ho]
+  rcases k with _ | _ | _ | _ | k <;> cases c.mkdirsFails <;> cases c.renameFails <;>
+    simp [prefixRun, exec, cleanup, outSt, ho]
 
-theorem completeTail_ok (c : Cfg) : TailOk [.mkdirs, .rename c.renameFails] 1 := by
+theorem completeTail_ok (c : Cfg) : TailOk [.mkdirs c.mkdirsFails, .rename c.renameFails] 1 := by
   intro s k ho ht
-  rcases k with _ | _ | _ | k <;> cases c.renameFails <;> simp [prefixRun, exec, cleanup, outSt, ho]
+  rcases k with _ | _ | _ | k <;> cases c.mkdirsFails <;> cases c.renameFails <;>
+    simp [prefixRun, exec, cleanup, outSt, ho]
 
 /-- the body frames, then a good tail: at every fault point the temporary file goes away and the destination is
     the previous content or previous `acc` ++ all body bytes; before the rename it is the previous content -/
@@ -158,9 +160,31 @@ theorem run_frames (frames : List Frame) (tail : List Step) :
       rw [h]
       cases allBytes r <;> simp [List.append_assoc]
 
+/-- running the part loop of `complete_multipart_upload` -/
+theorem run_parts (parts : List Part) (tail : List Step) :
+    ∀ s : St, ∃ p a code, code ≠ Code.ok ∧ run (parts.map .part ++ tail) s =
+      match allParts parts with
+      | some all => run tail { s with acc := s.acc ++ all, partsGone := p }
+      | none => (code, cleanup { s with acc := a, partsGone := p }) := by
+  induction parts with
+  | nil => intro s; exact ⟨s.partsGone, [], .internalError, by decide, by simp [allParts]⟩
+  | cons pt r ih =>
+    intro s
+    cases pt with
+    | missing => exact ⟨s.partsGone, s.acc, .internalError, by decide, by simp [run, exec, allParts]⟩
+    | present b sizeOk =>
+      cases sizeOk with
+      | false => exact ⟨s.partsGone, s.acc ++ b, .entityTooSmall, by decide, by simp [run, exec, allParts]⟩
+      | true =>
+        obtain ⟨p, a, code, hc, h⟩ := ih { s with acc := s.acc ++ b, partsGone := s.partsGone + 1 }
+        refine ⟨p, a, code, hc, ?_⟩
+        simp only [List.map_cons, List.cons_append, run, exec, allParts, ↓reduceIte]
+        rw [h]
+        cases allParts r <;> simp [List.append_assoc]
+
 theorem putObjectProg_eq (c : Cfg) :
     putObjectProg c = .create :: .adopt :: (c.frames.map .frame ++
-      ([.flush, .check c.checksumsEqual, .mkdirs, .rename c.renameFails] ++
+      ([.flush, .check c.checksumsEqual, .mkdirs c.mkdirsFails, .rename c.renameFails] ++
         (if c.hasMeta then [.saveMeta c.metaFails] else []) ++ [.saveInfo c.infoFails])) := by
   simp [putObjectProg, List.append_assoc]
 
